@@ -820,6 +820,8 @@ pub struct Scenario {
     /// which mux is dropped first at the end (2 = both at once)
     pub drop_first: u8,
     pub binds: Vec<BindPlan>,
+    /// ids the endpoints' flow-id generators yield first (then random); used to make a generator repeat an id that is in use
+    pub scripted_ids: [Vec<u32>; 2],
 }
 
 pub struct RunOut {
@@ -833,6 +835,8 @@ pub async fn general(sh: Sh, sc: Scenario) {
     let ([e0, e1], net) = connect(&sh, [&sc.cfg[0], &sc.cfg[1]], sc.caps, sc.faults.clone(), seed, sc.ws_jitter);
     memws::set_flush_pending(&net, 0, sc.flush_pending[0]);
     memws::set_flush_pending(&net, 1, sc.flush_pending[1]);
+    e0.rng.push(&sc.scripted_ids[0]);
+    e1.rng.push(&sc.scripted_ids[1]);
     let muxes = [e0.mux.clone(), e1.mux.clone()];
     let plans = Arc::new(sc.streams.clone());
     // acceptors
